@@ -37,6 +37,9 @@ pub struct Cfg {
     /// per-thread memory budget of the indexing workers (None = the 15 MB of the writer options)
     #[serde(default)]
     pub mem_budget: Option<usize>,
+    /// capacity of the indexing pipeline (None = tantivy's 10 000 batches)
+    #[serde(default)]
+    pub pipeline_cap: Option<usize>,
     pub store_lz4: bool,
     pub store_blocksize: usize,
     pub store_thread: bool,
@@ -112,6 +115,8 @@ pub enum Op {
     KillWorker,
     /// C18: rollback() under I/O errors (it fails), then observe the lock, then rollback again
     FaultyRollback,
+    /// C18: start a merge, then `wait_merging_threads()` while other threads try to create a writer
+    WaitMergesRace,
 }
 
 #[derive(Clone, Debug, PartialEq, Serialize, Deserialize)]
@@ -178,6 +183,11 @@ pub fn base_cfg(rng: &mut Rng, profile: Profile, thorough: bool) -> Cfg {
         // 3 MB is below tantivy's ~12 MB baseline consumption: the real memory-budget cut then
         // closes the segment after every document group (also twice as fast to simulate)
         mem_budget: if rng.chance(35, 100) { Some(3_000_000) } else { None },
+        pipeline_cap: match rng.weighted(&[50, 25, 25]) {
+            0 => None,
+            1 => Some(1),
+            _ => Some(rng.range(2, 4) as usize),
+        },
         store_lz4: rng.chance(1, 2),
         store_blocksize: *rng.pick(&[64usize, 256, 1024, 16384]),
         store_thread: rng.chance(1, 2),
